@@ -1,12 +1,17 @@
 """C05 - record fields always hold values of their declared type (DESIGN section 4, C05)."""
 from __future__ import annotations
 
+import datetime as _dt
+import json
+import os
 import random
+import subprocess
+import sys
 import warnings
 
 from .. import cands_c05 as cands
 from .. import gen, observe, probes
-from ..core import subseed
+from ..core import VERIF_DIR, subseed
 
 ID = "C05"
 TITLE = "typed slots, rejection leaves the record unchanged, accepted records serialise"
@@ -27,7 +32,13 @@ RULE = (
     "like a valid one (float / Decimal / Fraction of an address integer, 1.0 for 1 / True, a memoryview of bytes) before that valid value "
     "was ever offered (fresh random values), after it was accepted, and after a common value: the outcome must be the same in every "
     "position.  After an assignment through a GroupedRecord, getattr(group, field), group._asdict()[field] and the member's slot must show "
-    "the same typed value, and after a rejected one the view is unchanged.  One evaluation = one operation executed by the real code.  Oracle after every operation: "
+    "the same typed value, and after a rejected one the view is unchanged.  Every history runs next to 1-3 bystander records (same "
+    "descriptor; another descriptor with the same field types) holding ordinary values (False / True / 0 / '' / [] / small ints): their "
+    "deep observation, packed bytes and repr, taken when they were built, are compared after EVERY operation on the focus record.  "
+    "'locale' cases run one fixed sweep of bytes -> text conversions (string, wstring, uri, string[] elements, _source; construct / assign "
+    "/ _replace; valid UTF-8 with accents, CJK, emoji; invalid bytes) in a worker process under LC_ALL=C LANG=C PYTHONUTF8=0 "
+    "PYTHONCOERCECLOCALE=0 and under the default environment and in-process: identical results, equal to the surrogate-escaped UTF-8 "
+    "decoding.  One evaluation = one operation executed by the real code.  Oracle after every operation: "
     "(1) outcome against the expectation the statement fixes (valid => accepted; out-of-range unsigned / boolean not 0,1 / "
     "malformed digest or address / non-bytes for bytes => raised; everything else open), (2) after a raised operation the deep "
     "observation of the record (observe.obs + packed digest bytes), taken before the operation, is unchanged, (3) after an "
@@ -43,7 +54,9 @@ ASSUMPTIONS = [
     "accept/reject is demanded only for the candidate kinds the statement names; other wrong kinds (text for integers, bytearray/memoryview "
     "for bytes, a network with host bits, out-of-range integers for the deprecated net.ipv4.Address, unknown digest keys, bytes hex digests) "
     "are exercised for the invariants only",
-    "floats are not offered to integer types (uint16(3.7) yields a hybrid object today; the statement does not name it)",
+    "in-range non-integral numbers are not offered to integer types (uint16(3.7) yields a hybrid object today; the statement does not name it); "
+    "out-of-range non-integral numbers (-0.5, 65535.5, Fraction, Decimal) are offered to the unsigned types and fractional numbers to boolean, as "
+    "must-reject; 0.0 / 1.0 / Decimal(1) for boolean are left open",
     "nested-record fields receive records and None only (documented pass-through type); record[] elements are records",
     "in-place mutation of a typed list is not an attribute assignment: it is generated only in the 'alias' cases, with values that already are "
     "of the element type, to observe that default objects are not shared between records",
@@ -92,6 +105,12 @@ KEY_SHADOW = "field-name-shadows-template-global"
 HISTORY_TYPES = ["net.ipaddress", "net.IPAddress", "net.ipaddress[]", "net.ipnetwork", "net.IPNetwork", "net.ipnetwork[]", "net.ipv4.Address", "bytes", "bytes[]",
                  "boolean", "boolean[]"]
 KEY_HISTORY = "acceptance-depends-on-history"
+KEY_BYSTANDER = "operation-changes-another-record"
+KEY_BOOL_FRACTION = "boolean-accepts-fractional-value"
+KEY_LOCALE = "bytes-to-text-depends-on-locale"
+LOCALE_ENVS = [("C locale, UTF-8 mode off", {"LC_ALL": "C", "LANG": "C", "PYTHONUTF8": "0", "PYTHONCOERCECLOCALE": "0"}), ("default environment", None)]
+WORKER_TIMEOUT_S = 120
+BY_STAMP = _dt.datetime(2021, 1, 2, 3, 4, 5, 6, tzinfo=_dt.timezone.utc)
 ALIAS_TYPES = ["digest"] + [t + "[]" for t in gen.LIST_ELEM_TYPES]
 
 
@@ -110,6 +129,10 @@ def ops_for(ftype):
 
 def generate(ctx):
     idx = 0
+    for e in range(len(LOCALE_ENVS)):
+        if ctx.mine(idx + 5):
+            yield {"k": "locale", "env": e}
+        idx += 1
     if not ctx.quick and ctx.shard == 0:
         yield {"k": "suite"}
     for name in SHADOW_NAMES:
@@ -258,6 +281,59 @@ def lone_surrogate_slots(r):
     return out
 
 
+# ---- bystander records -------------------------------------------------------------------------------
+def ordinary_value(ftype, rng):
+    """an everyday value of the type (False / True / 0 / '' / empty list / small ints ...), never an exotic one"""
+    if ftype.endswith("[]"):
+        n = rng.choice([0, 1, 2])
+        return [ordinary_value(ftype[:-2], rng) for _ in range(n)]
+    if ftype == "boolean":
+        return rng.choice([False, True, 0, 1])
+    if ftype in ("uint16", "uint32", "net.tcp.Port", "net.udp.Port"):
+        return rng.choice([0, 1, 2, 80, 443])
+    if ftype in ("varint", "filesize", "unix_file_mode"):
+        return rng.choice([0, 1, -1, 7, 420])
+    if ftype == "float":
+        return rng.choice([0.0, 1.0, 0.5])
+    if ftype in ("string", "wstring"):
+        return rng.choice(["", "a", "text"])
+    if ftype == "uri":
+        return rng.choice(["", "http://example.com/x"])
+    if ftype == "bytes":
+        return rng.choice([b"", b"a", b"\x00\x01"])
+    if ftype == "datetime":
+        return rng.choice([BY_STAMP, _dt.datetime(1970, 1, 1, tzinfo=_dt.timezone.utc)])
+    if ftype == "digest":
+        return rng.choice([(None, None, None), ("d41d8cd98f00b204e9800998ecf8427e", None, None)])
+    if ftype in ("net.ipaddress", "net.IPAddress"):
+        return rng.choice(["1.2.3.4", "::1", 1, 3232235777])
+    if ftype in ("net.ipnetwork", "net.IPNetwork"):
+        return rng.choice(["10.0.0.0/8", "::/0"])
+    if ftype == "net.ipv4.Address":
+        return rng.choice(["1.2.3.4", 1])
+    if ftype == "path":
+        return rng.choice(["", "/a/b", "c:\\x"])
+    if ftype == "command":
+        return "ls -l"
+    if ftype == "stringlist":
+        return rng.choice([[], ["a"]])
+    if ftype == "dictlist":
+        return rng.choice([[], [{"a": 1}]])
+    if ftype == "dynamic":
+        return rng.choice(["s", "", 0, 1, False, True, b""])
+    if ftype == "record":
+        return None
+    raise KeyError(ftype)
+
+
+def bystander_state(r):
+    """everything another record's operation must leave alone: deep observation, packed bytes (secondary state such as .value
+    lives there), printed form"""
+    from flow.record import RecordPacker
+
+    return [observe.obs(r), digest_bins(r), RecordPacker().pack(r).hex(), repr(r)]
+
+
 # ---- one history -----------------------------------------------------------------------------------
 class Hist:
     def __init__(self, ctx, case, rng, ftype, nfields=None, fields=None, descname=None):
@@ -285,7 +361,45 @@ class Hist:
         self.key_hint = None
 
     def start(self, key_hint=None):
+        self.make_bystanders()
         return self.attempt("ctor_default", lambda: self.desc(), [], creating=True, key_hint=key_hint)
+
+    def make_bystanders(self):
+        """1-3 other live records (same descriptor; another descriptor using the same field types) holding ordinary values"""
+        from flow.record import RecordDescriptor
+
+        rng = random.Random(self.rng.random())
+        self.bystanders = []
+        other = RecordDescriptor("c05/bystander", [(t, "b%d" % i) for i, (t, _) in enumerate(self.fields)])
+        plans = [("same descriptor", self.desc), ("other descriptor, same field types", other), ("same descriptor", self.desc)][: rng.randint(1, 3)]
+        for label, d in plans:
+            try:
+                vals = [None if rng.random() < 0.15 else ordinary_value(t, rng) for t, _ in d.get_field_tuples()]
+                r = d.recordType(*vals, _generated=BY_STAMP)
+                self.bystanders.append([label, r, bystander_state(r)])
+            except Exception as e:  # noqa: BLE001
+                self.ctx.violation(None, "a record of ordinary values could not be built / observed / packed",
+                                   detail={"descriptor": [d.name, list(d.get_field_tuples())], "exception": repr(e)[:300]})
+        self.ctx.event("bystanders_built", len(self.bystanders))
+
+    def check_bystanders(self, op, used, outcome):
+        for label, r, before in getattr(self, "bystanders", ()):
+            self.ctx.event("bystander_checked")
+            try:
+                after = bystander_state(r)
+            except Exception as e:  # noqa: BLE001
+                self.ctx.violation(KEY_BYSTANDER, "another record can no longer be observed / packed / printed after an operation on this one",
+                                   detail=self.detail(op, used, outcome=outcome, bystander=label, exception=repr(e)[:300]))
+                continue
+            if after != before:
+                what = [n for n, a, b in zip(("observation", "digest bytes", "packed bytes", "repr"), after, before) if a != b]
+                self.ctx.violation(KEY_BYSTANDER, "an operation on one record changed what another record holds, packs or prints",
+                                   detail=self.detail(op, used, outcome=outcome, bystander=label, changed=what, diff=observe.first_diff(before[0], after[0]),
+                                                      repr_before=before[3][:300], repr_after=after[3][:300], packed_before=before[2][:200], packed_after=after[2][:200]))
+                # report once per corruption: continue from the new state
+                for ent in self.bystanders:
+                    if ent[1] is r:
+                        ent[2] = after
 
     # -- candidates
     def pool(self, ftype):
@@ -335,6 +449,7 @@ class Hist:
             ctx.cell(t, c.kind, outcome)
             ctx.nontrivial(t, op, c.kind, c.short())
         ctx.event("expect:%s/%s" % (exp, "raised" if raised else "accepted"))
+        self.check_bystanders(op, used, "raised " + type(raised).__name__ if raised else "accepted")
         if self.cur is not None:
             try:
                 after = snapshot(self.cur)
@@ -362,6 +477,8 @@ class Hist:
                         key = "digest-non-sequence-silently-empty"
                 except Exception:  # noqa: BLE001
                     pass
+            if len(bad) == 1 and bad[0][1].kind == "fractional" and self.type_of(bad[0][0]) in ("boolean", "boolean[]"):
+                key = KEY_BOOL_FRACTION
             ctx.violation(key, "a value the type cannot represent was accepted by %s" % op,
                           detail=self.detail(op, used, holds=[_safe_repr(getattr(holder, n, None)) for n, _ in bad]))
         rec = res if creating else (target if target is not None else self.cur)
@@ -712,6 +829,65 @@ def run_shadow(ctx, case):
     ctx.sample({"case": case, "operations": h.log[:8]}, kind="shadow")
 
 
+def run_locale(ctx, case):
+    """bytes -> text must not depend on the locale / interpreter text configuration: the same sweep (verif/worker_c05.sweep) runs in
+    a worker process under the given environment and in this process; valid UTF-8 must come out as the decoded text, invalid
+    bytes as surrogate escapes, everywhere the same."""
+    from .. import worker_c05
+
+    label, overrides = LOCALE_ENVS[case["env"]]
+    env = dict(os.environ)
+    for k in ("LC_ALL", "LANG", "LC_CTYPE", "PYTHONUTF8", "PYTHONCOERCECLOCALE", "PYTHONIOENCODING"):
+        env.pop(k, None)
+    if overrides:
+        env.update(overrides)
+    pp = env.get("PYTHONPATH", "")
+    if VERIF_DIR not in pp.split(os.pathsep):
+        env["PYTHONPATH"] = VERIF_DIR + (os.pathsep + pp if pp else "")
+    try:
+        p = subprocess.run([sys.executable, "-W", "ignore", "-m", "verif.worker_c05"], env=env, cwd=VERIF_DIR, capture_output=True, timeout=WORKER_TIMEOUT_S)
+    except subprocess.TimeoutExpired:
+        ctx.require(False, "a C05 locale worker exceeded its %d s watchdog" % WORKER_TIMEOUT_S)
+        return
+    ctx.event("locale_workers_run")
+    stdout = p.stdout.decode("ascii", "replace")
+    line = next((ln for ln in stdout.splitlines() if ln.startswith("C05WORKER ")), None)
+    if p.returncode != 0 or line is None:
+        ctx.violation(None, "the bytes-to-text sweep failed in a worker under %s (exit %s)" % (label, p.returncode),
+                      detail={"stderr": p.stderr.decode("ascii", "replace")[-2500:], "stdout": stdout[-300:]})
+        return
+    out = json.loads(line[len("C05WORKER "):])
+    info = out["info"]
+    repo = os.path.realpath(os.environ.get("VERIF_REPO", "/repo"))
+    ctx.require(os.path.realpath(info["flow_record_file"]).startswith(repo + os.sep), "C05 worker imported flow.record from %s, not from %s" % (info["flow_record_file"], repo))
+    if overrides:
+        ctx.require(all(info["env"].get(k) == v for k, v in overrides.items()), "environment was not propagated to a C05 locale worker: %r" % (info["env"],))
+        ctx.require(info["fs_encoding"].lower().replace("-", "") not in ("utf8",) and not info["utf8_mode"],
+                    "the C-locale worker still runs with a UTF-8 text configuration (%r): locale dependence not observable" % (info,))
+    ctx.note("locale_worker:" + label, {k: info[k] for k in ("fs_encoding", "preferred_encoding", "utf8_mode")})
+    here = worker_c05.sweep()
+    there = out["sweep"]
+    if len(here) != len(there):
+        ctx.violation(None, "the worker ran a different sweep", detail={"here": len(here), "there": len(there)})
+        return
+    for h, t in zip(here, there):
+        ctx.ev()
+        ctx.event("locale_conversions_checked")
+        ftype, slot, op, rawhex = h[:4]
+        raw = bytes.fromhex(rawhex)
+        ctx.cell("locale", label, ftype if slot == "f" else slot, op)
+        ctx.nontrivial("locale", case["env"], ftype, slot, op, rawhex)
+        d = {"environment": label, "worker": info, "field_type": ftype, "slot": slot, "operation": op, "input": raw, "in_process": h[4:], "in_worker": t[4:]}
+        if h != t:
+            ctx.violation(KEY_LOCALE, "a bytes value is converted differently under another locale / text configuration", detail=d)
+            continue
+        if ftype != "uri":
+            want = ["accepted", [ord(c) for c in raw.decode("utf-8", "surrogateescape")]]
+            if t[4:] != want:
+                ctx.violation(None, "bytes were not converted to text with surrogate escapes", detail=dict(d, expected=want))
+    ctx.sample({"case": case, "environment": label, "worker": info, "conversions": len(there)}, kind="locale:" + label)
+
+
 def run_suite(ctx, case):
     """thorough tier: the repository's own test-suite as an extra workload, with the typed-slot invariant installed as a
     post-condition of every record construction (verif/suite_plugin.py).  Only the monitor's observations are judged, not
@@ -992,7 +1168,9 @@ def run_alias(ctx, case):
 
 def execute(ctx, case):
     k = case["k"]
-    if k == "history":
+    if k == "locale":
+        run_locale(ctx, case)
+    elif k == "history":
         run_history(ctx, case)
     elif k == "alias":
         run_alias(ctx, case)
@@ -1024,6 +1202,7 @@ def finish(ctx):
     ctx.require(ev.get("alias_others_checked", 0) > 0, "the shared-default monitor (other records unchanged after an in-place fill) never ran")
     ctx.require(ev.get("alias_identity_checked", 0) > 0, "the default-object identity check never ran")
     ctx.require(ev.get("history_consistency_checked", 0) > 0, "the history-independence monitor never ran")
+    ctx.require(ev.get("bystander_checked", 0) > 0, "the bystander monitor (other records unchanged after every operation) never ran")
     ctx.require(ev.get("group_view_checked", 0) > 0 and ev.get("group_view_unchanged_checked", 0) > 0, "the grouped-view monitor never ran")
     for q in ("flow.record.base:Record.__setattr__", "flow.record.fieldtypes:typedlist._convert", "flow.record.packer:RecordPacker.pack_obj"):
         ctx.require(ctx.reach.get(q, 0) > 0, "anchor %s was never entered" % q)
